@@ -396,6 +396,9 @@ class InjG(gen.G):
         out = []
         for part in re.split(r"(\x01\d+\x02)", p):
             if part.startswith("\x01"):
+                if out and isinstance(out[-1], str) and out[-1].endswith(":"):
+                    # `name:7` is ONE identifier (namespace syntax) while `name:#7` is not: keep the two spellings apart from the colon
+                    out[-1] += " "
                 out.append(self.toks[int(part[1:-1])])
             elif part:
                 out.append(part)
